@@ -1020,7 +1020,7 @@ func c18SeqCollectorRound(ctx *Ctx, r *rand.Rand, rd int) {
 
 func engineC18Seq(ctx *Ctx) {
 	r := vlib.NewRand(ctx.Seed, ctx.Shard, "metrics")
-	rounds := ctx.N(160, 8000)
+	rounds := ctx.N(160, 24000)
 	for rd := 0; rd < rounds; rd++ {
 		c18SeqCollectorRound(ctx, r, rd)
 		if rd%4 == 0 {
@@ -1258,7 +1258,7 @@ func c18ConcMDBRound(ctx *Ctx, r *rand.Rand, rd, G, K int) {
 
 func engineC18Conc(ctx *Ctx) {
 	r := vlib.NewRand(ctx.Seed, ctx.Shard, "metrics-conc")
-	rounds := ctx.N(32, 320)
+	rounds := ctx.N(32, 960)
 	for rd := 0; rd < rounds; rd++ {
 		G := []int{2, 4, 8, 16}[(rd+ctx.Shard)%4]
 		c18ConcCollectorRound(ctx, r, rd, G, 120+r.Intn(120))
